@@ -217,6 +217,8 @@ dt_get_wday(struct dt_d_s that)
 		return __bizda_get_wday(that.bizda);
 	case DT_YWD:
 		return __ywd_get_wday(that.ywd);
+	case DT_YD:
+		return __yd_get_wday(that.yd);
 	case DT_UMMULQURA:
 		;
 	default:
